@@ -14,8 +14,14 @@ import (
 func main() {
 	g := flag.Int("g", 8, "goroutines")
 	rounds := flag.Int("rounds", 200, "rounds")
+	coldop := flag.Int("coldop", -1, "cold pass: the first thing this process does is operation number coldop on every goroutine at once")
 	flag.Parse()
-	mism := props.C20FreeRun(*g, *rounds)
+	var mism []string
+	if *coldop >= 0 {
+		mism = props.C20FreeRunCold(*g, *coldop)
+	} else {
+		mism = props.C20FreeRun(*g, *rounds)
+	}
 	for _, m := range mism {
 		fmt.Println("MISMATCH", m)
 	}
